@@ -89,8 +89,17 @@ Definition known_nat_cast : program -> bool :=
 
 (* type checker: arithmetic whose operand has a multi-valued enum type (an if-expression of literals, or a variable
    bound to one) is typed Nat: {256, 3} - 300 : Nat, -({256, 3}) : Nat, {256, 3} / 2 : Nat  (properties C02/C34) *)
-Definition enum_vars (p : program) : list Z :=
-  flat_map (fun s => match s with SDef x None (EIf _ _ _ _) => [x] | _ => [] end) p.
+Fixpoint enum_vars_stmt (s : stmt) : list Z :=
+  let blk := fix blk (ss : list stmt) : list Z := match ss with [] => [] | x :: r => enum_vars_stmt x ++ blk r end in
+  match s with
+  | SDef x None (EIf _ _ _ _) => [x]
+  | SFor x (ERange _ _ _) body => x :: blk body        (* the variable of a loop over lo..<hi has the interval type *)
+  | SFor _ _ body | SWhile _ body | SFun _ _ _ _ body => blk body
+  | SIf _ th _ el => blk th ++ blk el
+  | _ => []
+  end.
+
+Definition enum_vars (p : program) : list Z := flat_map enum_vars_stmt p.
 
 Definition is_enum (vars : list Z) (e : expr) : bool :=
   match e with
